@@ -441,7 +441,7 @@ def same_behaviour(x, y, cross_runtime=False):
 
 def programs(ctx):
     r = ctx.rng("programs")
-    n = 48 if ctx.quick else 1500
+    n = 48 if ctx.quick else 800
     n = int(os.environ.get("VERIF_C05_NPROG", n))          # development knob only
     native_every = 3 if ctx.quick else 1
     model_every = 6 if ctx.quick else 15
@@ -555,10 +555,16 @@ func main() { println(int(dbl(num(4)))) }
 
 
 def witnesses(ctx):
+    """the three fixed witness programs, concurrently (ctx.count is called from here, not from the threads)"""
+    for src in (WITNESS_PANICKING_INIT, WITNESS_NAMED_FUNC, WITNESS_SELFREF_CONSTRAINT):
+        ctx.count(["witness", src], nontrivial=True)
+    C.parallel_map(lambda f: f(ctx), [witness_panicking_init, witness_named_func, witness_selfref])
+
+
+def witness_panicking_init(ctx):
     # F10: an initialiser that panics without a call or receive is dropped
     d = os.path.join(wdir(ctx), "w_init")
     res = build_and_check(ctx, d, {"main.go": WITNESS_PANICKING_INIT}, native=True)
-    ctx.count(["witness", WITNESS_PANICKING_INIT], nontrivial=True)
     if res["stage"] == "infra" or "native" not in res:
         ctx.notes.append("panicking-initialiser witness skipped (infrastructure): " + res.get("log", res.get("native_skipped", ""))[:200])
     elif res["stage"] != "done":
@@ -571,10 +577,12 @@ def witnesses(ctx):
                           "`var unused = a[idx]` (index out of range, no call/receive): Go panics during initialisation (exit %d), the all-alive link "
                           "panics (exit %d), the normally linked program runs main (exit 0)" % (nat["rc"], al["rc"]),
                           dict(kind="program", files={"main.go": WITNESS_PANICKING_INIT}, normal=nrm, all_alive=al, native=nat))
+
+
+def witness_named_func(ctx):
     # F15 (fixed in /repo by de84ca0, kept as a regression witness): a call through a value of a named func type is a side effect
     d = os.path.join(wdir(ctx), "w_namedfunc")
     res = build_and_check(ctx, d, {"main.go": WITNESS_NAMED_FUNC}, native=True)
-    ctx.count(["witness", WITNESS_NAMED_FUNC], nontrivial=True)
     if res["stage"] == "infra" or "native" not in res:
         ctx.notes.append("named-func-type witness skipped (infrastructure): " + res.get("log", res.get("native_skipped", ""))[:200])
     elif res["stage"] != "done":
@@ -590,10 +598,12 @@ def witnesses(ctx):
         elif not (nrm["text"] == nat["text"] == al["text"]):
             ctx.violation("dce-changes-behaviour", "named-func-type witness behaves in an unexpected way",
                           dict(kind="program", files={"main.go": WITNESS_NAMED_FUNC}, normal=nrm, all_alive=al, native=nat))
+
+
+def witness_selfref(ctx):
     # F14: self-referential inline constraint -> unbounded recursion in dce.filterGen
     d = os.path.join(wdir(ctx), "w_selfref")
     C.write_go_program(d, {"main.go": WITNESS_SELFREF_CONSTRAINT})
-    ctx.count(["witness", WITNESS_SELFREF_CONSTRAINT], nontrivial=True)
     rc, log = C.gopherjs_build(d, timeout=600)
     rcn, logn = C.sh(["go", "run", "."], cwd=d, env=C.goenv(), timeout=600)
     ctx.cov["witness_selfref_constraint"] = dict(gopherjs_build_rc=rc, native_rc=rcn, native_output=logn.strip()[-40:])
@@ -724,6 +734,6 @@ LEVEL_TEXT = ("Machine-checked theorems over an executable model of dce.Info/Sel
               "(random graphs and the declaration graphs of real programs through the real Selector); the over-approximation hypothesis itself (filters.go names, "
               "recording call sites) is checked on generated programs by linking the same archives with and without DCE and by a static reference check of out.js.")
 LEVEL_NOTE = ("The proof covers the selection algorithm and the root rule; the adequacy of the recorded dependencies is a hypothesis of select_sound and is only "
-              "tested (48 programs quick / 1500 thorough). Known findings: initialisers that can panic without a call/receive are eliminated (HasSideEffect) -- kept in the model "
+              "tested (48 programs quick / 800 thorough). Known findings: initialisers that can panic without a call/receive are eliminated (HasSideEffect) -- kept in the model "
               "and refuted in Props/C05.v; a self-referential inline type-parameter constraint "
               "overflows the stack in filters.go (not in the model). No axioms.")
